@@ -5,12 +5,23 @@ From DippyV Require Import Base.Str Base.Verdict Base.Sx Base.Tree Gen.Tables Mo
 Lemma skip_assignments_length ws : (length (skip_assignments ws) <= length ws)%nat.
 Proof. induction ws as [|w ws IH]; cbn [skip_assignments]; [lia|]. destruct (is_assignment w); cbn [length]; lia. Qed.
 
-Lemma skip_wrapper_args_length ts : (length (skip_wrapper_args ts) <= length ts)%nat.
+Lemma skip_wrapper_opts_length wa : forall n ts, (length ts <= n)%nat -> (length (skip_wrapper_opts wa ts) <= length ts)%nat.
 Proof.
-  induction ts as [|t ts IH]; cbn [skip_wrapper_args]; [lia|].
-  destruct (numeric_arg t); [cbn [length]; lia|].
-  destruct (prefixb [45] t && negb (str_eqb t [45; 45])); [cbn [length]; lia|].
-  destruct (str_eqb t [45; 45]); cbn [length]; lia.
+  induction n as [|n IH]; intros ts Hn; destruct ts as [|t r]; cbn [skip_wrapper_opts length] in *; try lia.
+  destruct (str_eqb t [45; 45]); [lia|].
+  assert (Hr : forall r', (length r' <= n)%nat -> (length (skip_wrapper_opts wa r') <= length r')%nat) by (intros; apply IH; lia).
+  assert (H2 : (length (match r with [] => [] | _ :: r' => skip_wrapper_opts wa r' end) <= S (length r))%nat).
+  { destruct r as [|x r']; cbn [length]; [lia|]. pose proof (Hr r' ltac:(cbn [length] in Hn; lia)). lia. }
+  destruct (mem_str t wa); [exact H2|].
+  destruct (prefixb [45] t && Nat.ltb 1 (length t)); [|cbn [length]; lia].
+  destruct (negb (prefixb [45; 45] t) && mem_str (last_flag t) wa); [exact H2|].
+  pose proof (Hr r ltac:(lia)). lia.
+Qed.
+
+Lemma skip_wrapper_args_length base ts : (length (skip_wrapper_args base ts) <= length ts)%nat.
+Proof.
+  unfold skip_wrapper_args. rewrite skipn_length.
+  pose proof (skip_wrapper_opts_length (assoc_flags base WRAPPER_FLAGS_WITH_ARG) (length ts) ts (le_n _)). lia.
 Qed.
 
 Lemma skip_assignments_app pre ws : forallb is_assignment pre = true -> skip_assignments (pre ++ ws) = skip_assignments ws.
@@ -47,8 +58,8 @@ Section LadderP.
     intro H. unfold Ladder.after_rules.
     destruct (mem_str _ WRAPPER_COMMANDS && Nat.ltb 1 (length tokens)) eqn:E; [|reflexivity].
     destruct (str_eqb _ _ && mem_str _ COMMAND_V_FLAGS); [reflexivity|].
-    destruct (skip_wrapper_args (tl tokens)) eqn:Es; [reflexivity|].
-    apply H. rewrite <- Es. pose proof (skip_wrapper_args_length (tl tokens)) as Hl.
+    destruct (skip_wrapper_args _ (tl tokens)) eqn:Es; [reflexivity|].
+    apply H. rewrite <- Es. pose proof (skip_wrapper_args_length (match tokens with b :: _ => b | [] => [] end) (tl tokens)) as Hl.
     destruct tokens as [|t0 tk]; [apply andb_true_iff in E as [_ E]; discriminate|]. cbn [tl length] in *. lia.
   Qed.
 
@@ -143,27 +154,45 @@ Section LadderP.
   Qed.
 
   (* C04: the plain forms of the pure wrappers are transparent *)
-  Definition skippable (t : str) : bool := numeric_arg t || (prefixb [45] t && negb (str_eqb t [45; 45])).
+  (* an option word of a wrapper that takes no argument: starts with "-", longer than "-", not "--",
+     not in the wrapper's with-argument table, and not a short cluster ending in such an option *)
+  Definition plain_opt (wa : list str) (t : str) : bool :=
+    prefixb [45] t && Nat.ltb 1 (length t) && negb (str_eqb t [45; 45]) && negb (mem_str t wa) &&
+    negb (negb (prefixb [45; 45] t) && mem_str (last_flag t) wa).
+  (* the first word of the wrapped command is not option-shaped *)
+  Definition operand_word (t : str) : bool := negb (prefixb [45] t && Nat.ltb 1 (length t)) && negb (str_eqb t [45; 45]).
 
-  Lemma skip_wrapper_args_opts opts inner :
-    forallb skippable opts = true ->
-    match inner with t :: _ => skippable t = false /\ str_eqb t [45;45] = false | [] => True end ->
-    skip_wrapper_args (opts ++ inner) = inner.
+  Lemma skip_opts_plain wa opts inner : forallb (plain_opt wa) opts = true ->
+    match inner with t :: _ => operand_word t = true /\ mem_str t wa = false | [] => True end ->
+    skip_wrapper_opts wa (opts ++ inner) = inner.
   Proof.
     intros Ho Hi. induction opts as [|o opts IH]; cbn [app].
-    - destruct inner as [|t r]; [reflexivity|]. destruct Hi as [Hs Hd]. cbn [skip_wrapper_args].
-      unfold skippable in Hs. apply orb_false_iff in Hs as [Hn Hf]. rewrite Hn, Hf, Hd. reflexivity.
-    - cbn [forallb] in Ho. apply andb_true_iff in Ho as [Ho1 Ho2]. cbn [skip_wrapper_args].
-      unfold skippable in Ho1. destruct (numeric_arg o); [exact (IH Ho2)|]. cbn [orb] in Ho1. rewrite Ho1. exact (IH Ho2).
+    - destruct inner as [|t r]; [reflexivity|]. destruct Hi as [Hop Hwa]. cbn [skip_wrapper_opts].
+      unfold operand_word in Hop. apply andb_true_iff in Hop as [H1 H2]. apply negb_true_iff in H1, H2.
+      rewrite H2, Hwa, H1. reflexivity.
+    - cbn [forallb] in Ho. apply andb_true_iff in Ho as [Ho1 Ho2]. cbn [skip_wrapper_opts].
+      unfold plain_opt in Ho1. repeat (apply andb_true_iff in Ho1 as [Ho1 ?]).
+      repeat match goal with H : negb _ = true |- _ => apply negb_true_iff in H end.
+      match goal with H : str_eqb o [45;45] = false |- _ => rewrite H end.
+      match goal with H : mem_str o wa = false |- _ => rewrite H end.
+      match goal with H : (negb (prefixb [45;45] o) && mem_str (last_flag o) wa) = false |- _ => rewrite H end.
+      replace (prefixb [45] o && Nat.ltb 1 (length o)) with true by (symmetry; apply andb_true_iff; split; assumption).
+      exact (IH Ho2).
   Qed.
 
-  Lemma skip_wrapper_args_dashdash opts inner :
-    forallb skippable opts = true -> skip_wrapper_args (opts ++ [45;45] :: inner) = inner.
+  Lemma skip_opts_dashdash wa opts inner : forallb (plain_opt wa) opts = true ->
+    skip_wrapper_opts wa (opts ++ [45;45] :: inner) = inner.
   Proof.
     intro Ho. induction opts as [|o opts IH]; cbn [app].
     - reflexivity.
-    - cbn [forallb] in Ho. apply andb_true_iff in Ho as [Ho1 Ho2]. cbn [skip_wrapper_args].
-      unfold skippable in Ho1. destruct (numeric_arg o); [exact (IH Ho2)|]. cbn [orb] in Ho1. rewrite Ho1. exact (IH Ho2).
+    - cbn [forallb] in Ho. apply andb_true_iff in Ho as [Ho1 Ho2]. cbn [skip_wrapper_opts].
+      unfold plain_opt in Ho1. repeat (apply andb_true_iff in Ho1 as [Ho1 ?]).
+      repeat match goal with H : negb _ = true |- _ => apply negb_true_iff in H end.
+      match goal with H : str_eqb o [45;45] = false |- _ => rewrite H end.
+      match goal with H : mem_str o wa = false |- _ => rewrite H end.
+      match goal with H : (negb (prefixb [45;45] o) && mem_str (last_flag o) wa) = false |- _ => rewrite H end.
+      replace (prefixb [45] o && Nat.ltb 1 (length o)) with true by (symmetry; apply andb_true_iff; split; assumption).
+      exact (IH Ho2).
   Qed.
 
   Lemma wrapper_transparent c w rest inner :
@@ -171,12 +200,14 @@ Section LadderP.
     mem_str w WRAPPER_COMMANDS = true ->
     mcmd c (w :: rest) = None ->
     (str_eqb w $"command" && mem_str (nth 0 rest []) COMMAND_V_FLAGS) = false ->
-    skip_wrapper_args rest = inner -> inner <> [] ->
+    skip_wrapper_args w rest = inner -> inner <> [] ->
     ladder c (w :: rest) = ladder c inner.
   Proof.
-    intros Ha Hw Hm Hv Hs Hne. rewrite (ladder_unfold c (w :: rest)). cbn [skip_assignments]. rewrite Ha, Hm.
+    intros Ha Hw Hm Hv Hs Hne. rewrite (ladder_unfold c (w :: rest)). cbn [skip_assignments]. rewrite Ha.
+    cbn beta iota zeta. rewrite Hm.
     unfold Ladder.after_rules. rewrite Hw. cbn [andb].
-    destruct rest as [|r0 rest']; [cbn [skip_wrapper_args] in Hs; congruence|].
+    destruct rest as [|r0 rest'].
+    { exfalso. apply Hne. rewrite <- Hs. unfold skip_wrapper_args. cbn [skip_wrapper_opts]. apply skipn_nil. }
     cbn [length Nat.ltb Nat.leb nth tl] in *. rewrite Hv, Hs. destruct inner; [congruence|reflexivity].
   Qed.
 
